@@ -217,7 +217,7 @@ PROPS = {
                       "the compiled libccp 1.2.0 C code and to the Coq model of it, and return codes, staged values and register dumps are compared.",
         "level_note": "Coq kernel; no axioms; encoder model validated differentially through the loop stream (handle commands) and this stream; libccp 1.2.0 (vendored, "
                       "checksummed, compiled unmodified with gcc under a scripted clock) is the reference datapath: an oracle, not verified.",
-        "streams": ["c06", "loop"],
+        "streams": ["c06", "loop", "loopadv"],
         "rule": "update lists of every 7th length 0..300 (thorough: all) plus 126..129, 221..223, 254..257 in change-program and update-fields messages; 22 register kinds "
                 "(every class, boundary indices, immediates) x 5 boundary values; programs of 1..4000 statements (image sizes straddling 65535 bytes and libccp's "
                 "255-instruction limit); each message is read by the real libccp and by its model, then an invocation shows the staged values; "
